@@ -55,6 +55,66 @@ thread_local! {
     static IN_LIB_POLL: std::cell::Cell<bool> = std::cell::Cell::new(false);
 }
 
+/// Progress heartbeat (bumped around every poll of library code and by the multi-thread drivers) and "the main thread is
+/// inside library code right now", both read by the CPU-time watchdog.
+pub static BEAT: AtomicU64 = AtomicU64::new(0);
+pub static IN_LIB: AtomicBool = AtomicBool::new(false);
+pub static CURRENT_CASE: std::sync::Mutex<String> = std::sync::Mutex::new(String::new());
+
+pub fn beat() {
+    BEAT.fetch_add(1, Ordering::Relaxed);
+}
+
+fn enter_lib() {
+    BEAT.fetch_add(1, Ordering::Relaxed);
+    IN_LIB.store(true, Ordering::Relaxed);
+    IN_LIB_POLL.with(|f| f.set(true));
+}
+
+fn leave_lib() {
+    IN_LIB_POLL.with(|f| f.set(false));
+    IN_LIB.store(false, Ordering::Relaxed);
+    BEAT.fetch_add(1, Ordering::Relaxed);
+}
+
+fn process_cpu_ticks() -> Option<u64> {
+    let s = std::fs::read_to_string("/proc/self/stat").ok()?;
+    // fields after the parenthesised command name: state is field 3; utime and stime are fields 14 and 15
+    let rest = &s[s.rfind(')')? + 2..];
+    let f: Vec<&str> = rest.split_whitespace().collect();
+    Some(f.get(11)?.parse::<u64>().ok()? + f.get(12)?.parse::<u64>().ok()?)
+}
+
+/// A poll that does not return is the one thing the logical oracles cannot see. Wall-clock time says nothing on a loaded
+/// machine; CPU time does: if the process burns `limit_s` seconds of CPU while the heartbeat stands still, one poll has been
+/// spinning for that long (the longest legitimate poll, a 256 MiB packet, takes a few seconds). Exit code 97 if the spin is
+/// inside library code (a violation, attributed to the running case), 98 if it is in the harness (inconclusive).
+pub fn start_cpu_watchdog(limit_s: u64) {
+    if limit_s == 0 || process_cpu_ticks().is_none() {
+        return;
+    }
+    std::thread::spawn(move || {
+        let mut last_beat = BEAT.load(Ordering::Relaxed);
+        let mut base_cpu = process_cpu_ticks().unwrap_or(0);
+        loop {
+            std::thread::sleep(std::time::Duration::from_millis(500));
+            let b = BEAT.load(Ordering::Relaxed);
+            let cpu = process_cpu_ticks().unwrap_or(base_cpu);
+            if b != last_beat {
+                last_beat = b;
+                base_cpu = cpu;
+                continue;
+            }
+            if cpu.saturating_sub(base_cpu) > limit_s * 100 {
+                let in_lib = IN_LIB.load(Ordering::Relaxed);
+                let case = CURRENT_CASE.lock().map(|c| c.clone()).unwrap_or_default();
+                println!("PVH WATCHDOG: {limit_s} s of CPU time spent without the current poll returning (inside library code: {in_lib}) case={case}");
+                std::process::exit(if in_lib { 97 } else { 98 });
+            }
+        }
+    });
+}
+
 pub fn install_panic_hook() {
     std::panic::set_hook(Box::new(|info| {
         let file = info
@@ -373,9 +433,9 @@ impl<T> Task<T> {
         self.polls += 1;
         let waker = Waker::from(self.w.clone());
         let mut cx = TaskCx::from_waker(&waker);
-        IN_LIB_POLL.with(|f| f.set(true));
+        enter_lib();
         let r = catch_unwind(AssertUnwindSafe(|| fut.as_mut().poll(&mut cx)));
-        IN_LIB_POLL.with(|f| f.set(false));
+        leave_lib();
         match r {
             Ok(Poll::Ready(v)) => {
                 self.fut = None;
@@ -393,9 +453,9 @@ impl<T> Task<T> {
     /// Drops the future (= cancels the task). A panic inside a destructor is recorded.
     pub fn drop_fut(&mut self) {
         if let Some(f) = self.fut.take() {
-            IN_LIB_POLL.with(|x| x.set(true));
+            enter_lib();
             let r = catch_unwind(AssertUnwindSafe(move || drop(f)));
-            IN_LIB_POLL.with(|x| x.set(false));
+            leave_lib();
             if r.is_err() {
                 let msg = take_panic_msg();
                 self.panic = Some(format!("in drop: {msg}"));
@@ -925,9 +985,9 @@ impl Sim {
             slot.polls += 1;
             let waker = Waker::from(slot.w.clone());
             let mut cx = TaskCx::from_waker(&waker);
-            IN_LIB_POLL.with(|f| f.set(true));
+            enter_lib();
             let r = catch_unwind(AssertUnwindSafe(|| st.as_mut().poll_next(&mut cx)));
-            IN_LIB_POLL.with(|f| f.set(false));
+            leave_lib();
             match r {
                 Ok(Poll::Ready(Some(m))) => {
                     let m = sum_msg(&m);
